@@ -129,29 +129,31 @@ func sceneDoubleSlash() {
 	}
 }
 
-// sceneTwoNewBatches: two running contexts of one consumer are due for a batch in the same block; both are served.
+// sceneTwoNewBatches: two running contexts of one consumer, each naming its own provider (own price), are
+// due for a batch in the same block; they are served in the order of their ids, each one on its own merits:
+// issued if the consumer can (still) pay its fee, otherwise paused.
 func sceneTwoNewBatches() {
 	k, ctx := vf.Env()
 	ctx, H, now := Block(ctx)
 	Define(k, ctx, Svc)
-	owner, prov, consumer := vf.Addr("owner", 20), vf.Addr("prov", 20), vf.Addr("consumer", 20)
-	b := Binding(k, ctx, "b", Svc, prov, owner, 0, 0, false)
-	vf.Assume(b.Available)
-	id1, id2 := vf.Bytes("ctx1", 40), vf.Bytes("ctx2", 40)
-	vf.Assume(string(id1) != string(id2))
-	fee := RefPrice(b.Pricing, now, 0)
-	capAmt := vf.Amount("cap")
-	vf.Assume(capAmt.GTE(fee))
+	owner, consumer := vf.Addr("owner", 20), vf.Addr("consumer", 20)
+	provs := []sdk.AccAddress{vf.Addr("prov1", 20), vf.Addr("prov2", 20)}
+	distinct(provs...)
+	ids := [][]byte{vf.Bytes("ctx1", 40), vf.Bytes("ctx2", 40)}
+	vf.Assume(string(ids[0]) != string(ids[1]))
 	timeout := vf.Int64("timeout")
-	vf.Assume(vf.All(timeout >= 1, timeout < maxH, uint64(timeout) >= b.QoS))
-	for _, id := range [][]byte{id1, id2} {
-		rc := types.NewRequestContext(Svc, []sdk.AccAddress{prov}, consumer, InputOK, coins(capAmt), timeout, false, true, uint64(timeout)+5, -1,
+	vf.Assume(vf.And(timeout >= 1, timeout < maxH))
+	fees := make([]sdk.Int, 2)
+	for i := 0; i < 2; i++ {
+		b := Binding(k, ctx, "b"+digit(i), Svc, provs[i], owner, 0, 0, false)
+		vf.Assume(vf.And(b.Available, uint64(timeout) >= b.QoS))
+		fees[i] = RefPrice(b.Pricing, now, 0)
+		rc := types.NewRequestContext(Svc, []sdk.AccAddress{provs[i]}, consumer, InputOK, coins(fees[i]), timeout, false, true, uint64(timeout)+5, -1,
 			0, 0, 0, 1, types.BATCHCOMPLETED, types.RUNNING, 1, "")
-		k.SetRequestContext(ctx, id, rc)
-		k.AddNewRequestBatch(ctx, id, H)
+		k.SetRequestContext(ctx, ids[i], rc)
+		k.AddNewRequestBatch(ctx, ids[i], H)
 	}
 	balC := vf.Amount("balConsumer")
-	vf.Assume(balC.GTE(fee.Add(fee)))
 	vf.SetBalance(consumer, balC)
 	esc := vf.Amount("escrowRest")
 	vf.SetModuleBalance(types.RequestAccName, esc)
@@ -160,12 +162,28 @@ func sceneTwoNewBatches() {
 	chk("C20", !panicked, "endblock-no-panic")
 	vf.Assume(!panicked)
 
-	for _, id := range [][]byte{id1, id2} {
-		rc, found := k.GetRequestContext(ctx, id)
-		chk("C10 C09 C06", vf.And(found, rc.BatchCounter == 1 && rc.BatchState == types.BATCHRUNNING), "every-context-due-in-the-block-gets-its-batch")
-		chk("C11 C10", vf.All(!k.HasNewRequestBatch(ctx, id), queued(ctx, types.NewRequestBatchKey, id) == 0, expiryAt(k, ctx, id, H+timeout)), "each-entry-consumed-and-expiry-queued")
-		n1, _, n3 := countRecords(k, ctx, id, 1)
-		chk("C06 C16 C12", vf.And(n1 == 1, n3 == 1), "one-pending-request-per-context")
+	// reference: process in the order of the queue keys (height, then context id)
+	first, second := 0, 1
+	if string(ids[1]) < string(ids[0]) {
+		first, second = 1, 0
 	}
-	chk("C01 C02", vf.And(balC.Sub(vf.Balance(consumer)).Equal(fee.Add(fee)), vf.ModuleBalance(types.RequestAccName).Sub(esc).Equal(fee.Add(fee))), "consumer-pays-both-batches-into-escrow")
+	left := balC
+	paid := sdk.ZeroInt()
+	for _, i := range []int{first, second} {
+		rc, found := k.GetRequestContext(ctx, ids[i])
+		chk("C09 C16", found, "context-kept")
+		vf.Assume(found)
+		n1, _, n3 := countRecords(k, ctx, ids[i], 1)
+		if left.GTE(fees[i]) {
+			left = left.Sub(fees[i])
+			paid = paid.Add(fees[i])
+			chk("C10 C09 C06", vf.All(rc.State == types.RUNNING, rc.BatchCounter == 1, rc.BatchState == types.BATCHRUNNING), "a-context-whose-consumer-can-pay-gets-its-batch")
+			chk("C11 C10", vf.All(!k.HasNewRequestBatch(ctx, ids[i]), queued(ctx, types.NewRequestBatchKey, ids[i]) == 0, expiryAt(k, ctx, ids[i], H+timeout)), "entry-consumed-and-expiry-queued")
+			chk("C06 C16 C12", vf.And(n1 == 1, n3 == 1), "one-pending-request")
+		} else {
+			chk("C09 C06", vf.All(rc.State == types.PAUSED, rc.BatchCounter == 0, n1 == 0, n3 == 0), "a-context-whose-consumer-cannot-pay-is-paused-without-requests")
+			chk("C11", vf.All(!k.HasNewRequestBatch(ctx, ids[i]), !k.HasRequestBatchExpiration(ctx, ids[i])), "paused-context-is-idle")
+		}
+	}
+	chk("C01 C02 C05", vf.And(balC.Sub(vf.Balance(consumer)).Equal(paid), vf.ModuleBalance(types.RequestAccName).Sub(esc).Equal(paid)), "consumer-pays-exactly-the-issued-batches-into-escrow")
 }
